@@ -43,7 +43,6 @@ int filter_assembly_str_fsa__u(const char unfiltered_str[], char filter_str[]) F
 /* usage form without group A (a caller that does not need the non-ASCII clause: fewer symbolic reads) */
 int filter_assembly_str_fsa__uBC(const char unfiltered_str[], char filter_str[]) FILTER_PRE(__CPROVER_r_ok, __CPROVER_rw_ok) FILTER_POST_B FILTER_POST_C;
 #endif
-#endif
 #ifndef NATIVE_REPLAY
 /* ghost: base of the 100-byte filtered line buffer; terminated means g_buf[99] == 0 */
 char *g_buf;
@@ -138,22 +137,23 @@ int instr_tok__c(struct instr *instr_buffer, char *comp_instr)
 /* ghost: second argument of the last string comparison that found equality (recorded by strcmp__rec) */
 const char *g_eq_s2;
 #define ROW_OF(p) ((long)(__CPROVER_POINTER_OFFSET(p) / sizeof(struct instr_table)))
-#define STR_TO_INSTR_KEY_CONTRACT(VALID) \
+#define STR_TO_INSTR_KEY_CORE(VALID) \
   __CPROVER_requires(VALID(instruction, INSTRUCTION_CHAR_LEN) && instruction[INSTRUCTION_CHAR_LEN - 1] == 0) \
   __CPROVER_requires(IDX_ENTRY_OK(instruction[0])) \
-  __CPROVER_assigns(g_eq_s2) \
   __CPROVER_ensures(__CPROVER_return_value == INSTR_ERROR || \
       (__CPROVER_return_value >= 3 && __CPROVER_return_value <= 317 && \
-       (INSTR_TABLE[__CPROVER_return_value].opd_format[0] == (int)opd_layout || INSTR_TABLE[__CPROVER_return_value].opd_format[1] == (int)opd_layout))) \
-  /* the row belongs to the group of a mnemonic-bearing row whose name is exactly the text looked up: \
-   * an unknown mnemonic is never accepted, and no row of another mnemonic is returned */ \
-  __CPROVER_ensures(__CPROVER_return_value == INSTR_ERROR || \
-      (__CPROVER_same_object(g_eq_s2, INSTR_TABLE) && ROW_OF(g_eq_s2) >= 3 && ROW_OF(g_eq_s2) <= 317 && \
-       g_eq_s2 == INSTR_TABLE[ROW_OF(g_eq_s2)].instr_name && \
-       INSTR_TABLE[ROW_OF(g_eq_s2)].name == INSTR_TABLE[__CPROVER_return_value].name && \
-       STREQ14(instruction, INSTR_TABLE[ROW_OF(g_eq_s2)].instr_name)))
-int str_to_instr_key__c(char *instruction, operand_format opd_layout) STR_TO_INSTR_KEY_CONTRACT(__CPROVER_r_ok);
-int str_to_instr_key__e(char *instruction, operand_format opd_layout) STR_TO_INSTR_KEY_CONTRACT(__CPROVER_is_fresh);
+       (INSTR_TABLE[__CPROVER_return_value].opd_format[0] == (int)opd_layout || INSTR_TABLE[__CPROVER_return_value].opd_format[1] == (int)opd_layout)))
+/* usage form: what callers' proofs need (no ghost in the frame) */
+int str_to_instr_key__c(char *instruction, operand_format opd_layout) STR_TO_INSTR_KEY_CORE(__CPROVER_r_ok) __CPROVER_assigns();
+/* enforcement form: additionally, the row belongs to the group of a mnemonic-bearing row whose name is
+ * exactly the text looked up: an unknown mnemonic is never accepted, and no row of another mnemonic is returned */
+int str_to_instr_key__e(char *instruction, operand_format opd_layout) STR_TO_INSTR_KEY_CORE(__CPROVER_is_fresh)
+  __CPROVER_assigns(g_eq_s2)
+  __CPROVER_ensures(__CPROVER_return_value == INSTR_ERROR ||
+      (__CPROVER_same_object(g_eq_s2, INSTR_TABLE) && ROW_OF(g_eq_s2) >= 3 && ROW_OF(g_eq_s2) <= 317 &&
+       g_eq_s2 == INSTR_TABLE[ROW_OF(g_eq_s2)].instr_name &&
+       INSTR_TABLE[ROW_OF(g_eq_s2)].name == INSTR_TABLE[__CPROVER_return_value].name &&
+       STREQ14(instruction, INSTR_TABLE[ROW_OF(g_eq_s2)].instr_name)));
 
 /* register look-up: none, an error marker, or mode bits | number of one register class */
 #define REGCODE_OK(v) ((v) <= 0x7ff && ((v) == reg_none || ((v) & reg_error) || \
@@ -238,3 +238,4 @@ int strcmp__rec(const char *s1, const char *s2)
   __CPROVER_ensures(__CPROVER_return_value != 0 || g_eq_s2 == s2)
   __CPROVER_ensures(__CPROVER_return_value == 0 || g_eq_s2 == __CPROVER_old(g_eq_s2));
 #endif
+#endif /* TEXT_CONTRACTS_H */
